@@ -322,7 +322,9 @@ def check(model: Model, run: Run) -> None:
         'keeps only the low bits (PathInfo.make_from_integer: 32), the number is bounded accordingly',
         floor=2,
     )
-    MASKING = {'PathInfo.make_from_integer': (0, 32)}
+    MASKING = {'PathInfo.make_from_integer': (0, 32), 'GenericAttribute.make_generic': (0, 8), 'GenericAttribute.make_generic#flag': (1, 8)}
+    # prefix lengths handed to the flow components: bounded by the size of the address, not by a number of bits
+    LIMITS = {'IPrefix4.make_prefix4': (1, 32), 'IPrefix6.make_prefix6': (1, 128)}
     n3c = 0
     for fi in parsers:
         bd = Bounds(model, folder, fi)
@@ -335,7 +337,16 @@ def check(model: Model, run: Run) -> None:
                 u = bd.ub(e.right, e)
                 run.check(u <= (1 << k) - 1, fi.qualname, 'low part of (x << %d) + y bounded by %s' % (k, 'nothing' if u is INF else int(u)), fi.loc(e), 'the low part can exceed %d bits (it is only bounded by %s): it carries into the high part and the value sent differs from the one written (community 1:65536 goes out as 2:0)' % (k, 'nothing' if u is INF else int(u)))
             if isinstance(e, ast.Call):
+                for suf, (argi, top) in LIMITS.items():
+                    if model.call_matches(fi.module, e, suf, suf.split('.')[-1]) and len(e.args) > argi and isinstance(e.func, ast.Attribute) and e.func.attr == suf.split('.')[-1]:
+                        n3c += 1
+                        a = e.args[argi]
+                        u = INF if (isinstance(a, ast.Call) and dotted(a.func) == 'int') else bd.ub(a, e)
+                        if u is INF and isinstance(a, ast.Call):
+                            u = _helper_upper_bound(model, folder, fi, a)
+                        run.check(u <= top, fi.qualname, '%s receives a prefix length bounded by %s' % (e.func.attr, 'nothing' if u is INF else int(u)), fi.loc(e), 'a prefix length above %d is accepted, encoded and sent as written (`source 10.0.0.0/33`); the peer refuses the NLRI and rendering the route raises' % top)
                 for suf, (argi, bits) in MASKING.items():
+                    suf = suf.split('#')[0]
                     if model.call_matches(fi.module, e, suf) and len(e.args) > argi:
                         n3c += 1
                         a = e.args[argi]
@@ -344,12 +355,15 @@ def check(model: Model, run: Run) -> None:
                             u = INF
                         else:
                             u = bd.ub(a, e)
-                        run.check(u <= (1 << bits) - 1, fi.qualname, '%s receives a value bounded by %s' % (suf, 'nothing' if u is INF else int(u)), fi.loc(e), '%s keeps the low %d bits of what it is given: a larger number is accepted and silently becomes another one (path-information 4294967296 is sent as 0.0.0.0)' % (suf, bits))
+                        run.check(u <= (1 << bits) - 1, fi.qualname, '%s receives a value bounded by %s' % (suf, 'nothing' if u is INF else int(u)), fi.loc(e), '%s holds argument %d on %d bits: a larger number is accepted and then silently becomes another one (path-information 4294967296 is sent as 0.0.0.0) or can not be encoded at all (attribute code 0x100 raises when the UPDATE is built)' % (suf, argi, bits))
     if n3c < 2:
         run.cannot('only %d value-assembling sites found in the parsers' % n3c)
     # the factory really masks (the table above stays in step with the code)
     mk = model.func('exabgp.bgp.message.update.nlri.qualifier.path.PathInfo.make_from_integer')
     run.check(any(isinstance(x, ast.BinOp) and isinstance(x.op, ast.BitAnd) and folder.fold(x.right, mk.module, mk.cls) == 0xFF for x in ast.walk(mk.node)), mk.qualname, 'keeps 4 x 8 bits of its argument', mk.loc(), 'masking factory table out of date')
+
+    gp = model.func('exabgp.bgp.message.update.attribute.generic.GenericAttribute.pack_attribute')
+    run.check(any(isinstance(x, ast.Call) and dotted(x.func) == 'bytes' and x.args and isinstance(x.args[0], ast.List) and len(x.args[0].elts) == 2 for x in ast.walk(gp.node)), gp.qualname, 'writes flag and code on one octet each', gp.loc(), 'masking factory table out of date')
 
     # ------------------------------------------------------------------ R4 shared validity check, 4-byte ASNs
     run.rule('C18.R4', 'validate_announce_nlri is used both at parse time (API route handlers) and at encode time (messages()); ASN.from_string accepts 0..2^32-1; AS paths built from text are 4 bytes wide', floor=4)
@@ -481,6 +495,47 @@ def check(model: Model, run: Run) -> None:
 
     and_flag_rule(model, run)
 
+    # ------------------------------------------------------------------ R8 a conversion that fails is a refusal
+    run.rule(
+        'C18.R8',
+        'text that does not convert is refused, not replaced by a default: in the configuration parsers an `except ValueError` arm '
+        'that goes on with a default value does not guard a conversion of operator text (int(...), float(...)) - `route 10.0.0.1/abc` '
+        'must not be announced as 10.0.0.1/32 because int("abc") failed in the same try as the missing "/"',
+        floor=15,
+    )
+    R8_TRIAGED = {
+        'exabgp.configuration.static.attributes': 'look-ahead on the last token to guess the family of an attributes-only command: the token is parsed again, and refused, by the real parser',
+    }
+    n8 = 0
+    for fi in parsers + [f for f in model.funcs.values() if f.module.rel.startswith('exabgp/configuration/') and f not in parsers]:
+        for t in walk_no_nested(fi.node):
+            if not isinstance(t, ast.Try):
+                continue
+            convs = [c for st in t.body for c in ast.walk(st) if isinstance(c, ast.Call) and isinstance(c.func, ast.Name) and c.func.id in ('int', 'float')]
+            if not convs:
+                continue
+            for h in t.handlers:
+                hn = set(handler_names(h))
+                if not hn & {'ValueError', 'Exception', '*'}:
+                    continue
+                n8 += 1
+                leaves = any(isinstance(x, (ast.Raise, ast.Return, ast.Continue, ast.Break)) for st in h.body for x in ast.walk(st))
+                inst = '%s: try around %s' % (short(fi.qualname), norm(convs[0])[:30])
+                if leaves:
+                    run.ok(inst, 'the arm refuses or leaves')
+                elif fi.qualname in R8_TRIAGED:
+                    run.ok(inst, 'triaged: ' + R8_TRIAGED[fi.qualname])
+                else:
+                    run.violation(
+                        fi.qualname,
+                        'a failed %s falls back to a default (%s)' % (norm(convs[0])[:30], '; '.join(norm(x)[:30] for x in h.body)[:70]),
+                        fi.loc(h),
+                        'the except arm continues with a default value, and the try it belongs to also holds the conversion of operator text: '
+                        'when that conversion fails the text is accepted with the default in its place (a mask that is not a number becomes /32)',
+                    )
+    if n8 < 15:
+        run.cannot('only %d try/except around conversions found in the configuration parsers' % n8)
+
     # ------------------------------------------------------------------ R6 the family of the prefix is recorded for what follows
     run.rule(
         'C18.R6',
@@ -525,3 +580,37 @@ def check(model: Model, run: Run) -> None:
 
 # (function, operand) -> why the packed operand is in range although no guard shows it
 PACK_TRIAGED: dict[tuple[str, str], str] = {}
+
+
+def _helper_upper_bound(model: Model, folder: Folder, fi: FuncInfo, call: ast.Call):  # noqa: ANN201
+    """`helper(text, 32)` where the helper returns a local it has compared with that parameter (`if v < 0 or v > maximum: raise`):
+    the value of the argument; INF when nothing of the kind is found."""
+    cs = [c for c in model.callees(fi.module, call, by_name=False) if c in model.funcs]
+    if len(cs) != 1:
+        return INF
+    h = model.funcs[cs[0]]
+    params = [a.arg for a in h.node.args.args]
+    best = INF
+    for r in walk_no_nested(h.node):
+        if not (isinstance(r, ast.Return) and isinstance(r.value, ast.Name)):
+            continue
+        for t, pol in flat_guards(h.node, r):
+            if not (isinstance(t, ast.Compare) and len(t.ops) == 1 and isinstance(t.left, ast.Name) and t.left.id == r.value.id):
+                continue
+            op, rhs = t.ops[0], t.comparators[0]
+            bound = None
+            if isinstance(rhs, ast.Name) and rhs.id in params and params.index(rhs.id) < len(call.args):
+                bound = folder.fold(call.args[params.index(rhs.id)], fi.module, fi.cls)
+            else:
+                bound = folder.fold(rhs, h.module, h.cls)
+            if not isinstance(bound, int):
+                continue
+            if isinstance(op, ast.Gt) and not pol:
+                best = min(best, bound)
+            elif isinstance(op, ast.GtE) and not pol:
+                best = min(best, bound - 1)
+            elif isinstance(op, ast.LtE) and pol:
+                best = min(best, bound)
+            elif isinstance(op, ast.Lt) and pol:
+                best = min(best, bound - 1)
+    return best
